@@ -1,7 +1,7 @@
 (* RunSer.v — serialize_json of the model vs the implementation, and the Draft-6 reading of the
    emitted document (Spec6.v) vs the element's own verdicts. *)
 From Coq Require String. Import String.StringSyntax.
-From Statham.Model Require Import Str Json Elem Validate Equality SerJson Spec6 RunHelpers.
+From Statham.Model Require Import Str Json Elem Validate Equality SerJson Spec6 RunHelpers SerFrag.
 Local Open Scope string_scope.
 Local Open Scope list_scope.
 
@@ -17,7 +17,12 @@ Definition ser_doc (defs : list (str * elem)) (primary : elem) (classes : list e
 (* case: caller definitions, primary, other classes, implementation's document *)
 Definition run_ser_case (c : list (str * elem) * elem * list elem * json) : list nat :=
   match c with (defs, primary, classes, impl_doc) =>
-    if jeq false (ser_doc defs primary classes) impl_doc then [] else [1%nat]
+    (if jeq false (ser_doc defs primary classes) impl_doc then [] else [1%nat]) ++
+    (* 9: the tree lies in the fragment of C03_meaning (reference-free, DSL-constructible) *)
+    (match defs, classes with
+     | [], [] => if dslb 200 primary then [9%nat] else []
+     | _, _ => []
+     end)
   end.
 
 (* case: regex / format tables, the RESOLVED document, (value, the element accepted it?) list.
